@@ -4,6 +4,7 @@ Props/C05.lean — Equality, ordering and hashing of paths are mutually coherent
 import TypedPathVerif.Lemmas.Order
 import TypedPathVerif.Spec.HashSpec
 import TypedPathVerif.Props.C03
+import TypedPathVerif.Generated.Api
 
 namespace TP.C05
 
@@ -216,5 +217,46 @@ example : pathCmp .unix [97, 47, 98] [97, 47, 99] = .lt := by
   unfold pathCmp; rw [C03.comps_new_closed, C03.comps_new_closed]; decide
 example : hashSpec .unix [47, 97, 47, 46, 47, 98] = [[97], [98], usizeChunk 2] := by
   unfold hashSpec; rw [C03.comps_new_closed]; decide
+
+/-- the mixed-type comparison impls the oracle runs in both operand orders (harness/src/orc_a.rs,
+clause `mixed-type-impls-agree`: the 16 `mixed_all!` checks for the byte family and again for the
+UTF-8 family) -/
+def coveredCmpPairs : List String :=
+  ["non_utf8 impl_cmp PathBuf<T>,Path<T>",
+   "non_utf8 impl_cmp PathBuf<T>,&Path<T>",
+   "non_utf8 impl_cmp Cow<Path<T>>,Path<T>",
+   "non_utf8 impl_cmp Cow<Path<T>>,&Path<T>",
+   "non_utf8 impl_cmp Cow<Path<T>>,PathBuf<T>",
+   "non_utf8 impl_cmp_bytes PathBuf<T>,[u8]",
+   "non_utf8 impl_cmp_bytes PathBuf<T>,&[u8]",
+   "non_utf8 impl_cmp_bytes PathBuf<T>,Cow<[u8]>",
+   "non_utf8 impl_cmp_bytes PathBuf<T>,Vec<u8>",
+   "non_utf8 impl_cmp_bytes Path<T>,[u8]",
+   "non_utf8 impl_cmp_bytes Path<T>,&[u8]",
+   "non_utf8 impl_cmp_bytes Path<T>,Cow<[u8]>",
+   "non_utf8 impl_cmp_bytes Path<T>,Vec<u8>",
+   "non_utf8 impl_cmp_bytes &Path<T>,[u8]",
+   "non_utf8 impl_cmp_bytes &Path<T>,Cow<[u8]>",
+   "non_utf8 impl_cmp_bytes &Path<T>,Vec<u8>",
+   "utf8 impl_cmp Utf8PathBuf<T>,Utf8Path<T>",
+   "utf8 impl_cmp Utf8PathBuf<T>,&Utf8Path<T>",
+   "utf8 impl_cmp Cow<Utf8Path<T>>,Utf8Path<T>",
+   "utf8 impl_cmp Cow<Utf8Path<T>>,&Utf8Path<T>",
+   "utf8 impl_cmp Cow<Utf8Path<T>>,Utf8PathBuf<T>",
+   "utf8 impl_cmp_bytes Utf8PathBuf<T>,str",
+   "utf8 impl_cmp_bytes Utf8PathBuf<T>,&str",
+   "utf8 impl_cmp_bytes Utf8PathBuf<T>,Cow<str>",
+   "utf8 impl_cmp_bytes Utf8PathBuf<T>,String",
+   "utf8 impl_cmp_bytes Utf8Path<T>,str",
+   "utf8 impl_cmp_bytes Utf8Path<T>,&str",
+   "utf8 impl_cmp_bytes Utf8Path<T>,Cow<str>",
+   "utf8 impl_cmp_bytes Utf8Path<T>,String",
+   "utf8 impl_cmp_bytes &Utf8Path<T>,str",
+   "utf8 impl_cmp_bytes &Utf8Path<T>,Cow<str>",
+   "utf8 impl_cmp_bytes &Utf8Path<T>,String"]
+
+/-- the source generates exactly these mixed-type impls now (regenerated table, gen/api.py): a
+new `impl_cmp!` pair that the oracle does not compare breaks this -/
+theorem cmp_pairs_covered : Generated.cmpPairs = coveredCmpPairs := rfl
 
 end TP.C05
